@@ -9,6 +9,7 @@
 //! trusted: R15 (deep slice): OutboundPayments::claim_htlc: the whole per-payment block of the Occupied arm verbatim as a function of the payment and the event queue (a Vec here; push_back -> push); Sha256::hash(..).to_byte_array() is the external_body wrapper sha256 (R8); Event reduced to the three variants used
 //! trusted: R15 (deep slice): OutboundPayments::abandon_payment: the per-payment block verbatim (same conventions as fail_htlc / claim_htlc)
 //! trusted: R15 (deep slice): OutboundPayments::insert_from_monitor_on_startup: the Occupied arm's `match entry.get() { .. }` with the function-local macro new_retryable! (part of the slice), verbatim as a function of the map entry (a stub holding the payment; get / get_mut external_body), hash_set_from_iter([x]) is the one-element set, PaymentAttempts::new() opaque; the Vacant arm (a fresh Retryable from the same macro) is not sliced
+//! trusted: R15 (deep slice): OutboundPayments::add_new_pending_payment: the match on the map entry of the payment id, verbatim; the map is an environment type whose entry API carries the std contract, written with Verus' mutable-reference prophecy (the entry lends the slot of the key); create_pending_payment returns an uninterpreted fresh payment
 //! trusted: R15 (slices): pay_route_internal: the loop that classifies the per-path send results (R6: `for (res, path) in results.iter().zip(route.paths.iter())` becomes an index loop over the shorter length; body verbatim) and the expression giving the retry amount; sending the paths and building the error value are dropped and not claimed; APIError reduced to three variants
 //! assume: fail_htlc: a failure attributed to a blinded path carries no short_channel_id and the failed path has a blinded tail (debug_asserts on decode_onion_failure's result)
 //! assume: callers keep the representation invariant pending_amt_msat >= value of every in-flight path (and pending_fee_msat >= its fee); remove()/insert() are not called on pre-HTLC states (LDK's debug_assert!(false) arms)
@@ -248,6 +249,54 @@ impl OccupiedEntry {
 //@with
     true
 //@end
+// ---- a payment id can be used once: registering a payment under an id that is already known is refused and changes nothing ----
+pub mod new_payment {
+use vstd::prelude::*;
+use super::{PendingOutboundPayment, PaymentHash, PaymentPreimage, Retry, PaidBolt12Invoice, PaymentId};
+pub enum SendFailure { DuplicatePayment, Other }
+pub struct RecipientOnionFields { pub id: u64 }
+pub struct Route { pub id: u64 }
+pub struct Entropy {}
+pub struct OccupiedEntry<'a> { pub slot: &'a mut Option<PendingOutboundPayment> }
+pub struct VacantEntry<'a> { pub slot: &'a mut Option<PendingOutboundPayment> }
+impl<'a> VacantEntry<'a> { #[verifier::external_body] pub fn insert(self, v: PendingOutboundPayment) ensures *final(self.slot) == Some(v) { unimplemented!() } }
+pub mod hash_map { pub enum Entry<'a> { Occupied(super::OccupiedEntry<'a>), Vacant(super::VacantEntry<'a>) } }
+pub open spec fn slot_of<'a>(e: hash_map::Entry<'a>) -> &'a mut Option<PendingOutboundPayment> { match e { hash_map::Entry::Occupied(o) => o.slot, hash_map::Entry::Vacant(v) => v.slot } }
+pub struct PaymentsMap { pub m: Ghost<Map<PaymentId, PendingOutboundPayment>> }
+impl PaymentsMap {
+    // std HashMap::entry, with Verus' mutable-reference prophecy: the entry lends the slot of the key; what is left in the slot is what the map holds afterwards
+    #[verifier::external_body] pub fn entry<'a>(&'a mut self, k: PaymentId) -> (e: hash_map::Entry<'a>)
+        ensures e is Occupied <==> old(self).m@.contains_key(k), e is Occupied ==> *slot_of(e) == Some(old(self).m@[k]), e is Vacant ==> *slot_of(e) is None,
+            final(self).m@ == (match *final(slot_of(e)) { Some(v) => old(self).m@.insert(k, v), None => old(self).m@.remove(k) }),
+    { unimplemented!() }
+}
+pub uninterp spec fn fresh_payment(payment_hash: PaymentHash, route: Route, best_block_height: u32) -> PendingOutboundPayment;
+pub struct OutboundPayments {}
+impl OutboundPayments {
+    #[verifier::external_body] pub fn create_pending_payment(payment_hash: PaymentHash, recipient_onion: RecipientOnionFields, keysend_preimage: Option<PaymentPreimage>, invoice_request: Option<u8>, bolt12_invoice: Option<PaidBolt12Invoice>,
+        route: &Route, retry_strategy: Option<Retry>, entropy_source: &Entropy, best_block_height: u32) -> (r: (PendingOutboundPayment, Vec<[u8; 32]>))
+        ensures r.0 == fresh_payment(payment_hash, *route, best_block_height) { unimplemented!() }
+//@extract lightning/src/ln/outbound_payment.rs :: impl OutboundPayments :: fn add_new_pending_payment
+//@slice R15
+    let mut pending_outbounds = self.pending_outbound_payments.lock().unwrap(); match pending_outbounds.entry(payment_id) { $arms:any } }
+//@with
+    fn register_payment_under_its_id(pending_outbounds: &mut PaymentsMap, payment_hash: PaymentHash, recipient_onion: RecipientOnionFields, payment_id: PaymentId, keysend_preimage: Option<PaymentPreimage>, route: &Route, retry_strategy: Option<Retry>,
+        entropy_source: &Entropy, best_block_height: u32, bolt12_invoice: Option<PaidBolt12Invoice>) -> Result<Vec<[u8; 32]>, SendFailure> { match pending_outbounds.entry(payment_id) { $arms } }
+//@rw R4 *
+    PaymentSendFailure::
+//@with
+    SendFailure::
+//@ret r
+//@ensures P C03 a-payment-id-that-is-already-known-pending-fulfilled-or-abandoned-is-refused-as-a-duplicate-and-nothing-changes-a-fresh-id-registers-exactly-one-new-payment
+    old(pending_outbounds).m@.contains_key(payment_id) ==> r == Err::<Vec<[u8; 32]>, SendFailure>(SendFailure::DuplicatePayment) && final(pending_outbounds).m@ == old(pending_outbounds).m@,
+    !old(pending_outbounds).m@.contains_key(payment_id) ==> r is Ok && final(pending_outbounds).m@ == old(pending_outbounds).m@.insert(payment_id, fresh_payment(payment_hash, *route, best_block_height)),
+//@mutant known_payment_id_overwritten
+    hash_map::Entry::Occupied(_) => Err(PaymentSendFailure::DuplicatePayment),
+//@with
+    hash_map::Entry::Occupied(e) => { *e.slot = None; Err(PaymentSendFailure::DuplicatePayment) },
+//@end
+}
+}
 // ---- how long a completed payment's id stays reserved (deep R15 slice of OutboundPayments::remove_stale_payments) ----
 //@const lightning/src/ln/outbound_payment.rs IDEMPOTENCY_TIMEOUT_TICKS
 //@extract lightning/src/ln/outbound_payment.rs :: impl OutboundPayments :: fn remove_stale_payments
